@@ -406,6 +406,7 @@ impl HistoryModel {
         }
         // C02 O1
         if self.mon.recipients {
+            no_seal_to_removed(&recs, &w.ghosts, ctx);
             if let (Some(old), Ok(new)) = (&old_tree, Tree::parse(&tree_bytes(w.g(by)))) {
                 let new_leaves: Vec<u32> = joined_now.iter().map(|x| w.leaf_of(*x)).collect();
                 let removed_keys: Vec<Vec<u8>> = removed_now
